@@ -1029,6 +1029,60 @@ func checkPortSlices(c *core.Ctx, r *core.Rule) {
 			}
 			r.Check(a == b, key, p.Pos(fn.Pos()), pr[0]+" and "+pr[1]+" both from data"+a, fmt.Sprintf("%s is taken from data%s but %s from data%s: the transport flow no longer carries the layer's %s", pr[0], a, pr[1], b, pr[1]))
 		}
+		// the pair is assigned together: once the exported number is stored, the private slice
+		// is stored before the function can return (error returns included — the half-decoded
+		// layer is still added to the packet and asked for its flow)
+		for _, pr := range pairs {
+			var numSt, slSt []*ssa.Store
+			core.Instrs(fn, func(ins ssa.Instruction) {
+				st, ok := ins.(*ssa.Store)
+				if !ok {
+					return
+				}
+				fa, ok := st.Addr.(*ssa.FieldAddr)
+				if !ok || !core.IsRecvParam(fn, fa.X) {
+					return
+				}
+				switch core.FieldOfAddr(fa).Name() {
+				case pr[1]:
+					numSt = append(numSt, st)
+				case pr[0]:
+					slSt = append(slSt, st)
+				}
+			})
+			if len(numSt) == 0 || len(slSt) == 0 {
+				continue
+			}
+			var esc ssa.Instruction
+			for _, ns := range numSt {
+				// a slice store before the number store on every path also pairs them
+				if e := core.ForwardSearch(fn, ns, func(i ssa.Instruction) bool { _, isRet := i.(*ssa.Return); return isRet }, func(i ssa.Instruction) bool {
+					for _, s2 := range slSt {
+						if i == ssa.Instruction(s2) {
+							return true
+						}
+					}
+					return false
+				}); e != nil {
+					before := true
+					for _, s2 := range slSt {
+						_ = s2
+					}
+					// accept when some slice store dominates the number store
+					before = false
+					for _, s2 := range slSt {
+						if core.Dominates(s2, ns) {
+							before = true
+						}
+					}
+					if !before {
+						esc = e
+					}
+				}
+			}
+			key := core.FnKey(fn) + "/" + pr[0] + "-with-" + pr[1]
+			r.Check(esc == nil, key, p.Pos(fn.Pos()), pr[0]+" is stored on every path on which "+pr[1]+" is", fmt.Sprintf("%s is stored but a return is reachable before %s is: a segment rejected in between (bad data offset, options cut off by the snap length) is still added to the packet as its transport layer, and its TransportFlow() is empty — or, on a reused layer, the previous packet's ports — while %s holds this packet's port", pr[1], pr[0], pr[1]))
+		}
 		if s, ok := rng["sPort"]; ok && s != "?" && s == rng["dPort"] {
 			r.Violate(core.FnKey(fn)+"/sPort=dPort", p.Pos(fn.Pos()), "source and destination port slices alias the same bytes "+s, nil)
 		}
